@@ -572,6 +572,7 @@ func init() {
 		"hgetall": hiter("hgetall", true, true),
 		"hkeys":   hiter("hkeys", true, false),
 		"hvals":   hiter("hvals", false, true),
+		"hscan":   hscan,
 		"hlen": func(s *Store, a [][]byte) resp2.Value {
 			if len(a) != 2 {
 				return arityErr("hlen")
@@ -1115,6 +1116,28 @@ func hiter(name string, keys, vals bool) handler {
 		}
 		return out
 	}
+}
+
+// hscan: HSCAN key 0 [COUNT n] answers the whole hash in one page (cursor 0), which a server is free to do; other
+// cursors and MATCH are not modelled.
+func hscan(s *Store, a [][]byte) resp2.Value {
+	if len(a) < 3 {
+		return arityErr("hscan")
+	}
+	if string(a[2]) != "0" || (len(a) != 3 && !(len(a) == 5 && strings.EqualFold(string(a[3]), "count"))) {
+		return syntaxErr
+	}
+	e, ok := s.get(string(a[1]), kHash)
+	if !ok {
+		return wrongType
+	}
+	page := resp2.Value{Kind: resp2.Array, Arr: []resp2.Value{}}
+	if e != nil {
+		for _, p := range e.Hash {
+			page.Arr = append(page.Arr, resp2.BS(p.k), bulk(p.v))
+		}
+	}
+	return resp2.Value{Kind: resp2.Array, Arr: []resp2.Value{resp2.BS("0"), page}}
 }
 
 func push(name string, left bool) handler {
